@@ -223,10 +223,47 @@ def check_directed_swap(ctx, res: Result):
         res.check(okg, "P-SWAP", f, norm(guards[0].test) if guards else "if node2 in set1 or node1 in set2: continue", role + ":refusal", f"the {role} swap is not refused exactly when it would duplicate a node in one of the two sets", loc(v.fi, lp))
         same = [n for n in ast.walk(lp) if isinstance(n, ast.If) and isinstance(n.test, ast.Compare) and isinstance(n.test.ops[0], ast.Eq) and any(isinstance(b, ast.Continue) for b in n.body)]
         res.check(bool(same), "P-SWAP", f, norm(same[0].test) if same else "if id1 == id2: continue", role + ":distinct", "a hyperedge can be paired with itself", loc(v.fi, lp))
-    # final rebuild with both roles
-    fin = [n for n in walk_no_nested(v.fi.node) if isinstance(n, ast.Call) and isinstance(n.func, ast.Attribute) and n.func.attr == "append" and norm(n.func.value) == "final_hyperedges"]
-    okf = bool(fin) and all("edge[0]" in norm(n) and "edge[1]" in norm(n) and norm(n).index("edge[0]") < norm(n).index("edge[1]") for n in fin)
-    res.check(okf, "P-SWAP", f, norm(fin[0]) if fin else "final_hyperedges.append(...)", "rebuild", "the final hyperedges are not rebuilt as (source, target) from the swapped lists", loc(v.fi, v.fi.node))
+    # final rebuild with both roles: the pairs handed to the DirectedHypergraph constructor are (source side, target side)
+    ctor = [n for n in walk_no_nested(v.fi.node) if isinstance(n, ast.Call) and isinstance(n.func, ast.Name) and n.func.id == "DirectedHypergraph"]
+    pairs = []  # (node, loop variable(s), pair expression)
+    for c in ctor:
+        arg = next((k.value for k in c.keywords if k.arg == "edge_list"), c.args[0] if c.args else None)
+        if arg is None:
+            continue
+        e = v.resolve(arg) if isinstance(arg, ast.Name) else arg
+        if isinstance(e, (ast.ListComp, ast.GeneratorExp)) and len(e.generators) == 1:
+            pairs.append((e, e.generators[0].target, e.elt))
+        elif isinstance(arg, ast.Name):
+            for n in walk_no_nested(v.fi.node):
+                if isinstance(n, ast.Call) and isinstance(n.func, ast.Attribute) and n.func.attr == "append" and norm(n.func.value) == arg.id and n.args:
+                    lp = v.enclosing(n, (ast.For,))
+                    if lp is not None:
+                        pairs.append((n, lp.target, n.args[0]))
+    if not pairs:
+        res.unknown("P-SWAP", f, "final_hyperedges.append(...)", "rebuild", "the construction of the final hyperedge list was not recognised", loc(v.fi, v.fi.node))
+    for node, target, pexpr in pairs:
+        # strip an outer tuple(...) call
+        pe = pexpr
+        while isinstance(pe, ast.Call) and norm(pe.func) == "tuple" and len(pe.args) == 1:
+            pe = pe.args[0]
+        if not (isinstance(pe, ast.Tuple) and len(pe.elts) == 2):
+            res.unknown("P-SWAP", f, norm(node)[:120], "rebuild", "the rebuilt hyperedge is not written as a pair", loc(v.fi, node))
+            continue
+
+        def side(x):
+            """0 / 1: which component of the working pair the expression is built from"""
+            if isinstance(target, ast.Tuple) and len(target.elts) == 2 and all(isinstance(t, ast.Name) for t in target.elts):
+                names = {y.id for y in ast.walk(x) if isinstance(y, ast.Name)}
+                hit = [i for i, t in enumerate(target.elts) if t.id in names]
+                return hit[0] if len(hit) == 1 else None
+            if isinstance(target, ast.Name):
+                idx = {y.slice.value for y in ast.walk(x) if isinstance(y, ast.Subscript) and isinstance(y.value, ast.Name) and y.value.id == target.id and isinstance(y.slice, ast.Constant)}
+                return idx.pop() if len(idx) == 1 else None
+            return None
+
+        sides = [side(pe.elts[0]), side(pe.elts[1])]
+        st = "ok" if sides == [0, 1] else ("violation" if None not in sides else "unknown")
+        res.add("P-SWAP", f, norm(node)[:120], "rebuild", st, "" if st == "ok" else "the final hyperedges are not rebuilt as (source, target) from the swapped lists", loc(v.fi, node))
 
 
 def run(ctx):
